@@ -48,6 +48,7 @@ func cmdRandom(args []string) {
 	reexec := fs.String("reexec", "", "comma list of GOMAXPROCS values for re-executing each block before insertion")
 	lockups := fs.Bool("lockups", false, "contract-held coinbases ('cl' lockup records)")
 	trimspend := fs.Int("trimspend", 0, "attempts to spend a small output in exactly the block that trims it")
+	chained := fs.Int("chained", 0, "every N-th step: a peer-style block with a same-block chained Qi spend, then forks around it")
 	fresh := fs.Int("fresh", 0, "compare with a fresh node that only saw the canonical chain every N steps (and at the end)")
 	fs.Parse(args)
 
@@ -77,7 +78,10 @@ func cmdRandom(args []string) {
 	if *followers != "" {
 		for i, be := range strings.Split(*followers, ",") {
 			opt := e.Net.Opt
-			opt.Backend, opt.Dir, opt.ZoneDB, opt.WrapZoneDB = be, filepath.Join(*dir, fmt.Sprintf("follower-%d", i)), nil, nil
+			opt.Backend, opt.Dir, opt.ZoneDB, opt.WrapZoneDB, opt.WrapDB = be, filepath.Join(*dir, fmt.Sprintf("follower-%d", i)), nil, nil, nil
+			if be == "nosnap" { // memory database, state snapshots off: reads what the committed trie holds, never a cached layer
+				opt.Backend, opt.NoSnapshot = "memory", true
+			}
 			os.MkdirAll(opt.Dir, 0o755)
 			f, err := mininet.New(opt)
 			if err != nil {
@@ -109,7 +113,7 @@ func cmdRandom(args []string) {
 			r.WriteEvents(*out)
 		}
 		sum := map[string]interface{}{"events": len(r.Events), "blocks": len(r.Blocks) - 1, "entries": r.NumEntries(), "problems": r.Problems, "backend": *backend,
-			"trimspend_realised": 0, "reexecutions": r.Reexecs, "follower_checks": r.FollowerChecks, "fresh_replays": r.FreshReplays, "aborted": aborted}
+			"trimspend_realised": 0, "reexecutions": r.Reexecs, "follower_checks": r.FollowerChecks, "fresh_replays": r.FreshReplays, "index_checks": r.IndexChecks, "chained_blocks": r.Chained, "slot_calls": r.SlotCalls, "aborted": aborted}
 		b, _ := json.Marshal(sum)
 		fmt.Println(string(b))
 	}
@@ -128,6 +132,28 @@ func cmdRandom(args []string) {
 		if ok {
 			realised++
 		}
+	}
+	// a block as a PEER may build it: two Qi transactions, the second spending an output of the first; it is then abandoned
+	// for a sibling, made head again and (sometimes) abandoned once more: the rollback must not resurrect the intermediate
+	// output, the roll-forward must re-apply both transactions
+	doChained := func() {
+		p := r.Blocks2Head()
+		id, ok, err := r.MineChained(p)
+		if err != nil {
+			aborted = "chained: " + err.Error()
+			finish()
+			os.Exit(0)
+		}
+		if ok {
+			sib := mine(p, r.R.Intn(3))
+			r.SetHead(id, true)
+			if r.R.Intn(2) == 0 {
+				r.SetHead(sib, true)
+			}
+		}
+	}
+	if *chained > 0 && *shapes == "" {
+		doChained() // right after the warm-up every key still holds spendable outputs of large denominations
 	}
 	head = r.Blocks2Head()
 	base := head
@@ -173,6 +199,10 @@ func cmdRandom(args []string) {
 				}
 			}
 			nb := len(r.Blocks)
+			if *chained > 0 && i%*chained == *chained-1 {
+				doChained()
+				continue
+			}
 			switch x := r.R.Intn(20); {
 			case x < 12:
 				mine(r.Blocks2Head(), r.R.Intn(5))
@@ -218,6 +248,14 @@ func cmdRandom(args []string) {
 			fmt.Fprintf(os.Stderr, "head outbound etx type=%d datalen=%d to=%s\n", etx.EtxType(), len(etx.Data()), etx.To().Hex())
 		}
 	}
+	slotState := ""
+	if e.SlotContract != nil {
+		if st, err := e.Net.ZoneCore().Processor().State(); err == nil {
+			if ia, err := e.SlotContract.InternalAddress(); err == nil {
+				slotState = fmt.Sprintf("code=%d slot0=%x slot1=%x", len(st.GetCode(ia)), st.GetState(ia, common.Hash{}).Bytes()[31:], st.GetState(ia, common.BytesToHash([]byte{1})).Bytes()[31:])
+			}
+		}
+	}
 	w, err := os.Create(*out)
 	if err != nil {
 		fatal(3, err)
@@ -230,7 +268,7 @@ func cmdRandom(args []string) {
 	bw.Flush()
 	w.Close()
 	sum := map[string]interface{}{"events": len(r.Events), "blocks": len(r.Blocks) - 1, "entries": r.NumEntries(), "problems": r.Problems, "backend": *backend, "trimspend_realised": realised, "lockup_records": len(r.Prev.Lockups), "adversarial_qi_txs_offered": r.Adversarial, "failing_evm_txs_offered": r.FailingTxs, "lockup_entries_seen": r.LockupEntries(),
-		"reexecutions": r.Reexecs, "follower_checks": r.FollowerChecks, "fresh_replays": r.FreshReplays}
+		"reexecutions": r.Reexecs, "follower_checks": r.FollowerChecks, "fresh_replays": r.FreshReplays, "index_checks": r.IndexChecks, "chained_blocks": r.Chained, "slot_calls": r.SlotCalls, "slot_state": slotState}
 	b, _ := json.Marshal(sum)
 	fmt.Println(string(b))
 }
